@@ -275,6 +275,41 @@ hvq_h!(hv_quorum, 7, 7, 0);
 // votes for a future round, node does not lead r+1
 hvq_h!(hv_quorum_future_nonleader, 5, 9, 0);
 
+/// The state right after this node assembled the QC for (h, round 7): current round 8 (which it leads), high_qc.round = 7,
+/// aggregator cleaned.  A full quorum of valid votes for the same (h, 7) is delivered again (retransmission / replay)
+/// through the real `handle_vote`: no second certificate may be assembled — observable as a second proposal request for
+/// round 8 — and nothing else moves (C19: at most once per block and round).
+#[kani::proof]
+#[kani::unwind(12)]
+#[kani::stub(std::fmt::format, stub_format)]
+fn hv_replayed_quorum() {
+    store::reset();
+    let me = 0u8; // leads round 8
+    let mut env = mk_core(me, &EQ4);
+    let h = Digest(crypto::DBytes([9; 8]));
+    env.core.round = 8;
+    env.core.last_voted_round = vwit::any_u64();
+    env.core.high_qc = QC { hash: h.clone(), round: 7, votes: Vec::new() };
+    vwit::assume(inv(&env.core));
+    let s0 = snap(&env);
+    let mk = |i: u8| {
+        let mut v = Vote { hash: h.clone(), round: 7, author: key(i), signature: Signature::default() };
+        v.signature = sig(i, &v.digest());
+        v
+    };
+    let (v1, v2, v3) = (mk(1), mk(2), mk(3));
+    let r1 = run_ready(env.core.handle_vote(&v1));
+    let r2 = run_ready(env.core.handle_vote(&v2));
+    let r3 = run_ready(env.core.handle_vote(&v3));
+    assert!(r1.is_ok() && r2.is_ok() && r3.is_ok());
+    assert!(env.rx_proposer.len() == 0, "C19 a replayed quorum of votes assembled a second QC for the same block and round");
+    assert!(env.core.round == 8 && env.core.high_qc.round == 7, "C10 round/high_qc moved by replayed votes");
+    assert!(sent_len() == 0 && env.rx_commit.len() == 0 && env.core.last_voted_round == s0.lv);
+    vwit::cover!(r3.is_ok());
+    std::mem::forget((r1, r2, r3, v1, v2, v3));
+    std::mem::forget(env);
+}
+
 // ===================================================================================== handle_tc / handle_timeout / local timeout
 fn tc_of(round: Round, signers: &[u8], hq: Round) -> TC {
     let mut tc = TC { round, votes: Vec::new() };
@@ -589,3 +624,49 @@ fn hp_genesis_empty_tc() { hostile_genesis_tc(0) }
 #[kani::unwind(12)]
 #[kani::stub(std::fmt::format, stub_format)]
 fn hp_genesis_subquorum_tc() { hostile_genesis_tc(2) }
+
+
+/// A valid leader proposal that carries BOTH a QC (round 6) and a valid TC (round 8) reaches a node in round 3: it enters
+/// round 9 on the TC's evidence, and its high QC still becomes the QC of the proposal (the timeout it may sign next must
+/// carry at least that QC).
+#[kani::proof]
+#[kani::unwind(12)]
+#[kani::stub(std::fmt::format, stub_format)]
+fn hp_valid_tc() {
+    store::reset();
+    let me = 3u8; // does not lead round 10
+    let mut env = mk_core(me, &EQ4);
+    let b0 = blk(1, 5, Digest::default(), 0);
+    let d0 = b0.digest();
+    env.store.preload(d0.to_vec(), bincode::serialize(&b0).unwrap());
+    let b1 = blk(2, 6, d0.clone(), 5);
+    let d1 = b1.digest();
+    env.store.preload(d1.to_vec(), bincode::serialize(&b1).unwrap());
+    vwit::assume(d0 != d1 && d0 != Digest::default() && d1 != Digest::default());
+    store::script_strict(&[1, 0]);
+    env.core.last_committed_round = 4;
+    any_node_state_at(&mut env, d0.clone(), 3);
+    let r: Round = vwit::any_u64();
+    vwit::assume(r > 6 && r < (1u64 << 62));
+    let author = leader_of(r);
+    let mut b = Block { qc: qc_of(&b1, &[0, 1, 2]), tc: Some(tc_of(8, &[0, 1, 2], 0)), author: key(author), round: r, payload: Vec::new(), signature: Signature::default() };
+    let bd = b.digest();
+    vwit::assume(bd != d0 && bd != d1);
+    b.signature = sig(author, &bd);
+    let s0 = snap(&env);
+    let res = run_ready(env.core.handle_proposal(&b));
+    assert!(res.is_ok());
+    assert!(env.core.round == 9, "C10 round after a proposal carrying a TC of round 8");
+    assert!(env.core.high_qc.round == if 6 > s0.hq { 6 } else { s0.hq }, "C10 high_qc not raised to the QC of a TC-carrying proposal");
+    let may_vote = r == 9 && r > s0.lv;
+    if may_vote {
+        assert!(env.core.last_voted_round == 9 && sent_len() == 1 && sent_tag(0) == TAG_VOTE, "C03 TC-justified vote expected");
+    } else {
+        assert!(env.core.last_voted_round == s0.lv && sent_len() == 0, "C03 vote although the rule forbids it");
+    }
+    vwit::cover!(may_vote);
+    vwit::cover!(!may_vote && s0.hq < 6);
+    std::mem::forget(res);
+    std::mem::forget((b, b0, b1, d0, d1));
+    std::mem::forget(env);
+}
